@@ -77,6 +77,14 @@ func (w *writer) NeedsRollover(rollover int64) bool {
 }
 
 func (w *writer) Publish(msgs []message.Message) (int64, error) {
+	// reject the batch before anything is written: a message refused halfway would
+	// leave the ones before it in the files, under offsets the next publish reuses
+	for i := range msgs {
+		if err := message.Validate(msgs[i]); err != nil {
+			return OffsetInvalid, err
+		}
+	}
+
 	nextOffset, indexTime := w.index.getNext()
 
 	items := make([]index.Item, len(msgs))
